@@ -17,6 +17,7 @@ func init() {
 			c.run("C06-R1", "LITERAL: printer and detector agree on the trigger grammar", c06R1)
 			c.run("C06-R2", "WHO-CALLS/GUARD-DOM: exactly one start per detection; suppression tests precede a trigger", c06R2)
 			c.run("C06-R4", "LITERAL/GUARD-DOM: the trigger's mode letter selects its action", c06Dispatch)
+			c.run("C06-S1", "shared with C16-R8: the repeated-id test asks the environment predicate (a Windows console on the path, not only a Windows host)", c16WinPredicates)
 			c.run("C06-R3", "LITERAL: suppression words are words the code prints", c06R3)
 		})
 }
